@@ -321,12 +321,14 @@ func (store *fileStore) SaveMessage(seqNum int, msg []byte) error {
 	if _, err := store.headerFile.Seek(0, io.SeekEnd); err != nil {
 		return fmt.Errorf("unable to seek to end of file: %s: %s", store.headerFname, err.Error())
 	}
-	if _, err := fmt.Fprintf(store.headerFile, "%d,%d,%d\n", seqNum, offset, len(msg)); err != nil {
-		return fmt.Errorf("unable to write to file: %s: %s", store.headerFname, err.Error())
-	}
-
+	// The message bytes go to the body file before the index line that points at them, so that an
+	// interrupted save can never leave an index line whose bytes are missing (or are later filled in by
+	// the next message).
 	if _, err := store.bodyFile.Write(msg); err != nil {
 		return fmt.Errorf("unable to write to file: %s: %s", store.bodyFname, err.Error())
+	}
+	if _, err := fmt.Fprintf(store.headerFile, "%d,%d,%d\n", seqNum, offset, len(msg)); err != nil {
+		return fmt.Errorf("unable to write to file: %s: %s", store.headerFname, err.Error())
 	}
 	if store.fileSync {
 		return store.syncBodyAndHeaderFilesLocked()
